@@ -63,6 +63,10 @@ Replay(ch, n) == ApplyAll(EmptyDb, Flatten(SubSeq(ch, 1, n)))
 (* Operational transformation: server op s against local op l gives        *)
 (* <<s', l'>> (NoOp = nothing left).  Transcribed from the table in        *)
 (* docs/src/sync-model.md / SyncOp::transform; MC_Xform checks the diamond *)
+(* EqualCancels: a definition, not a constant, so that no configuration has to set it; the     *)
+(* anti-vacuity run of C03 overrides it (EqualCancels <- EqTrue in the cfg file).             *)
+EqualCancels == FALSE
+EqTrue == TRUE
 (* property for it instead of assuming it.                                 *)
 Xform(s, l) ==
   IF s.u # l.u THEN <<s, l>>
@@ -75,7 +79,9 @@ Xform(s, l) ==
   ELSE IF s.k = "U" /\ l.k = "D" THEN <<NoOp, l>>
   ELSE IF s.k = "D" /\ l.k = "U" THEN <<s, NoOp>>
   ELSE IF s.p # l.p THEN <<s, l>>
-  ELSE IF s.v = l.v THEN <<NoOp, NoOp>>
+  \* (until fix EQ1 two updates to the same value cancelled each other, whatever their
+  \* timestamps: EqualCancels = TRUE is that former table, kept for the anti-vacuity run)
+  ELSE IF EqualCancels /\ s.v = l.v THEN <<NoOp, NoOp>>
   ELSE IF s.t < l.t THEN <<NoOp, l>>
   ELSE <<s, NoOp>>
 
